@@ -331,9 +331,34 @@ def run(repo, rep, tier):
                  "right per label but the result's dimensions come back in another order than the input's")
     else:
         rep.ok("R-C16-3", f"{fi.file} smooth_spec", f"{len(trs)} transpose call(s)", "the result keeps the input's dimension order")
+    # the window must see its neighbours: a rolling mean evaluated block by block (map_blocks / apply_ufunc / map_overlap without depth) truncates the
+    # window at every chunk boundary of a windowed dimension that is not collapsed into one chunk first
+    perblock = [c for c in ast.walk(fi.node) if isinstance(c, ast.Call) and isinstance(c.func, ast.Attribute) and c.func.attr in ("map_blocks", "map_overlap", "blockwise")
+                and any(isinstance(x, ast.Call) and isinstance(x.func, ast.Attribute) and x.func.attr == "rolling" for a_ in list(c.args) + [k_.value for k_ in c.keywords] for x in ast.walk(a_))]
+    for c in perblock:
+        single = set()
+        for ch in ast.walk(fi.node):
+            if isinstance(ch, ast.Call) and isinstance(ch.func, ast.Attribute) and ch.func.attr == "chunk" and (ch.lineno, ch.col_offset) < (c.lineno, c.col_offset):
+                for k_ in ch.keywords:
+                    if k_.arg in (F, D) and repo.const(fi.module, k_.value) == -1:
+                        single.add(k_.arg)
+        if single != {F, D}:
+            rep.fail("R-C16-3", fi.file, c.lineno, fi.qualname, unparse(c)[:100],
+                     f"the running mean is evaluated block by block while {sorted({F, D} - single)} may be split into several chunks: the windows next to every "
+                     "internal chunk boundary are cut (they come back NaN and are refilled with the unsmoothed input)", anchor="smooth_spec:per-block-rolling")
     roll = [n for n in ast.walk(fi.node) if isinstance(n, ast.Call) and isinstance(n.func, ast.Attribute) and n.func.attr == "rolling"]
     if len(roll) != 1:
+        if any(f_.anchor == "smooth_spec:per-block-rolling" for f_ in rep.findings):
+            return
         raise AnalysisError("smooth_spec: rolling() not found")
+    # the mean of a window is a real number: the result is never cast (back) to the input's own dtype
+    for c in ast.walk(fi.node):
+        if isinstance(c, ast.Call) and isinstance(c.func, ast.Attribute) and c.func.attr == "astype" and c.args \
+                and any(isinstance(x, ast.Attribute) and x.attr == "dtype" and isinstance(x.value, ast.Name) and x.value.id in fi.params[:1] for x in ast.walk(c.args[0])) \
+                and (c.lineno, c.col_offset) > (roll[0].lineno, roll[0].col_offset):
+            rep.fail("R-C16-3", fi.file, c.lineno, fi.qualname, unparse(c)[:90],
+                     "the smoothed values are cast to the dtype of the input: for integer-typed spectra (packed / counts) every window mean is truncated and is "
+                     "no longer the mean of its window", anchor="smooth_spec:cast-to-input-dtype")
     r = roll[0]
     dimarg = kwarg(r, "dim") or (r.args[0] if r.args else None)
     mapping = None
